@@ -39,13 +39,42 @@ OPS = {ast.Lt: {'<'}, ast.LtE: {'<', '='}, ast.Gt: {'>'}, ast.GtE: {'>', '='},
        ast.Eq: {'='}, ast.NotEq: {'<', '>'}}
 
 
+_CONTAINER_MAKERS = {'dict', 'list', 'set', 'OrderedDict', 'defaultdict', 'deque', 'Counter'}
+
+
+def _definition(f, name_node):
+    """The expression a local stands for at this read: the value of its only
+    plain assignment, or of the only assignment that reaches the read.  A
+    container built in place (display, comprehension, dict()/list()/set()) is
+    not substituted - what it holds is decided by later statements, and how it
+    is built (loop or comprehension) carries no meaning."""
+    from .dataflow import reaching
+    d = defs(f.node)
+    v = d.single(name_node.id)
+    if v is None and name_node.id not in d.params and len(d.values.get(name_node.id, ())) > 1:
+        try:
+            rs, param_live = reaching(f.node, name_node.id, name_node)
+        except Exception:
+            rs, param_live = [], True
+        if len(rs) == 1 and rs[0][0] == 'assign':
+            v = rs[0][1]
+    if v is None:
+        return None
+    if isinstance(v, (ast.Dict, ast.List, ast.Set, ast.ListComp, ast.DictComp, ast.SetComp,
+                      ast.GeneratorExp)):
+        return None
+    if isinstance(v, ast.Call) and isinstance(v.func, ast.Name) and \
+            v.func.id in _CONTAINER_MAKERS:
+        return None
+    return v
+
+
 def _subst_text(f, e, depth=3):
     """Text of ``e`` with single-assignment locals replaced by their value."""
-    d = defs(f.node)
     names = {}
     for x in ast.walk(e):
         if isinstance(x, ast.Name) and isinstance(x.ctx, ast.Load) and x.id not in names:
-            v = d.single(x.id)
+            v = _definition(f, x)
             if v is not None and depth > 0 and not any(
                     isinstance(y, ast.Name) and y.id == x.id for y in ast.walk(v)):
                 names[x.id] = '(%s)' % _subst_text(f, v, depth - 1)
@@ -68,7 +97,7 @@ def _subst_text(f, e, depth=3):
 
 def canonical_atom(f, e, pol):
     if isinstance(e, ast.Compare) and len(e.ops) == 1 and type(e.ops[0]) in OPS:
-        a, b = _subst_text(f, e.left), _subst_text(f, e.comparators[0])
+        a, b = _clean(_subst_text(f, e.left)), _clean(_subst_text(f, e.comparators[0]))
         rel = set(OPS[type(e.ops[0])])
         if not pol:
             rel = set(ORD) - rel
@@ -80,9 +109,9 @@ def canonical_atom(f, e, pol):
             isinstance(e.ops[0], (ast.Is, ast.IsNot, ast.In, ast.NotIn)):
         pos = isinstance(e.ops[0], (ast.Is, ast.In))
         op = 'is' if isinstance(e.ops[0], (ast.Is, ast.IsNot)) else 'in'
-        return ['rel', _subst_text(f, e.left), op, _subst_text(f, e.comparators[0]),
-                pos == pol]
-    return ['atom', _subst_text(f, e), bool(pol)]
+        return ['rel', _clean(_subst_text(f, e.left)), op,
+                _clean(_subst_text(f, e.comparators[0])), pos == pol]
+    return ['atom', _clean(_subst_text(f, e)), bool(pol)]
 
 
 def _owning_if(e):
@@ -118,10 +147,17 @@ def _from_refusing_exit(e, pol, site):
         par = getattr(par, '_parent', None)
     if isinstance(par, ast.Assert) and par is not site:
         return True      # what follows an assert runs only if it held; otherwise it raises
-    if pol:
-        return False
     st = _owning_if(e)
     if st is None or not isinstance(st, ast.If):
+        return False
+    # polarity of the whole test given the atom's: flip once per enclosing `not`
+    test_pol = pol
+    child, par = e, getattr(e, '_parent', None)
+    while par is not None and child is not st.test:
+        if isinstance(par, ast.UnaryOp) and isinstance(par.op, ast.Not):
+            test_pol = not test_pol
+        child, par = par, getattr(par, '_parent', None)
+    if test_pol:
         return False
     inside = any(x is site for x in ast.walk(st) if x is not st) and \
         not any(x is site for b in st.orelse for x in ast.walk(b))
